@@ -151,7 +151,9 @@ func (q *pathQ) bypass() []ssa.Instruction {
 	witness := func(b *ssa.BasicBlock, hit ssa.Instruction) []ssa.Instruction {
 		var w []ssa.Instruction
 		w = append(w, hit)
-		for x := b; x != nil; x = parent[x] {
+		onPath := map[*ssa.BasicBlock]bool{}
+		for x := b; x != nil && !onPath[x] && len(w) < 10000; x = parent[x] {
+			onPath[x] = true // a mid-block start can be re-entered through a loop: do not follow the cycle
 			if len(x.Instrs) > 0 {
 				w = append(w, x.Instrs[0])
 			}
@@ -777,4 +779,44 @@ func errEdgeOf(in ssa.Instruction) edgePred {
 		}
 		return false
 	}
+}
+
+// boolDependsOn: boolean value v depends (through &&/|| lowering, phis and negation) on target.
+func boolDependsOn(v, target ssa.Value) bool {
+	seen := map[ssa.Value]bool{}
+	var walk func(ssa.Value, int) bool
+	walk = func(x ssa.Value, d int) bool {
+		if x == nil || d > 10 {
+			return false
+		}
+		if x == target {
+			return true
+		}
+		if seen[x] {
+			return false
+		}
+		seen[x] = true
+		switch y := x.(type) {
+		case *ssa.Phi:
+			for i, e := range y.Edges {
+				if walk(e, d+1) {
+					return true
+				}
+				p := y.Block().Preds[i]
+				if len(p.Instrs) > 0 {
+					if ifi, ok := p.Instrs[len(p.Instrs)-1].(*ssa.If); ok && walk(ifi.Cond, d+1) {
+						return true
+					}
+				}
+			}
+		case *ssa.UnOp:
+			if y.Op == token.NOT {
+				return walk(y.X, d+1)
+			}
+		case *ssa.BinOp:
+			return walk(y.X, d+1) || walk(y.Y, d+1)
+		}
+		return false
+	}
+	return walk(v, 0)
 }
